@@ -35,7 +35,8 @@ type fwdQueue struct {
 	inner queue.Delayed
 	mu    sync.Mutex
 	due   []time.Time // at + delay of every pushed task
-	ran   []time.Time // completion time of every task (same index), zero until it ran
+	ran   []time.Time // start time of every task (same index), zero until it ran
+	exp   []time.Time // expiry of the certificate the task was scheduled for (set by the harness)
 }
 
 func (q *fwdQueue) Push(t queue.Task) { q.PushDelayed(t, 0) }
@@ -46,15 +47,16 @@ func (q *fwdQueue) PushDelayed(t queue.Task, d time.Duration) {
 	q.ran = append(q.ran, time.Time{})
 	q.mu.Unlock()
 	q.inner.PushDelayed(func() error {
+		started := time.Now()
 		err := t()
 		q.mu.Lock()
-		q.ran[idx] = time.Now()
+		q.ran[idx] = started
 		q.mu.Unlock()
 		return err
 	}, d)
 }
 func (q *fwdQueue) Run(stop <-chan struct{}) { q.inner.Run(stop) }
-func (q *fwdQueue) Closed() <-chan struct{}   { return q.inner.Closed() }
+func (q *fwdQueue) Closed() <-chan struct{}  { return q.inner.Closed() }
 
 func (q *fwdQueue) allRan(n int) bool {
 	q.mu.Lock()
@@ -68,6 +70,27 @@ func (q *fwdQueue) allRan(n int) bool {
 		}
 	}
 	return true
+}
+
+// setExpiry notes the expiry of the certificate behind the most recently pushed task.
+func (q *fwdQueue) setExpiry(t time.Time) {
+	q.mu.Lock()
+	defer q.mu.Unlock()
+	for len(q.exp) < len(q.due) {
+		q.exp = append(q.exp, t)
+	}
+}
+
+// late: a task started after the certificate it was to renew had expired.
+func (q *fwdQueue) late() bool {
+	q.mu.Lock()
+	defer q.mu.Unlock()
+	for i, t := range q.ran {
+		if !t.IsZero() && i < len(q.exp) && t.After(q.exp[i]) {
+			return true
+		}
+	}
+	return false
 }
 
 func (q *fwdQueue) ranCount() int {
@@ -95,10 +118,11 @@ func (q *fwdQueue) early() bool {
 
 // every (ratio, ttl) gives a first delay of more than one second (NotAfter is truncated to seconds, so
 // the lifetime is in (ttl-1, ttl]): the sequential prefix of a case is over long before any task is due.
+// ... and a grace period (time between the due instant and expiry) of more than one second.
 var timerShapes = []struct {
 	ratio float64
 	ttl   int
-}{{0.25, 3}, {0.5, 3}, {0.75, 5}}
+}{{0.5, 4}, {0.5, 3}, {0.75, 5}}
 
 func genTimer(seed uint64, n int, path string) {
 	out := wire.Create(path)
@@ -214,6 +238,9 @@ func timerAttempt(t []string) (string, bool) {
 		if _, err := s.sc.GenerateSecret(security.WorkloadKeyCertResourceName); err != nil && fail == "" {
 			fail = "gen-error"
 		}
+		if w := nacache.VerifCachedWorkload(s.sc); w != nil {
+			fq.setExpiry(w.ExpireTime)
+		}
 		collect()
 	}
 	gen()
@@ -240,7 +267,10 @@ func timerAttempt(t []string) (string, bool) {
 	if w := nacache.VerifCachedWorkload(s.sc); w != nil {
 		wl = idTok(true, certID(w.CertificateChain))
 	}
-	return fmt.Sprintf("ev=%s calls=%d wl=%s early=%s", strings.Join(evs, ""), s.ca.calls(), wl, wire.B(fq.early())), true
+	// a task that ran after the expiry of its certificate (grace period > 1 s) is reported only if it
+	// happens in every attempt: a single stall of the machine is not a verdict about the queue
+	return fmt.Sprintf("ev=%s calls=%d wl=%s early=%s late=%s", strings.Join(evs, ""), s.ca.calls(), wl,
+		wire.B(fq.early()), wire.B(fq.late())), !fq.late()
 }
 
 func execTimer(in, outp string) {
@@ -308,6 +338,8 @@ func oracleTimer(in, outp string) {
 			out.Line("FAIL", "rotation-never-fired", wire.Enc(join(t)))
 		case strings.Contains(r, "early=1"):
 			out.Line("FAIL", "rotation-early", wire.Enc(join(t)), wire.Enc(r))
+		case strings.Contains(r, "late=1"):
+			out.Line("FAIL", "rotation-after-expiry", wire.Enc(join(t)), wire.Enc(r))
 		case !strings.Contains(r, fmt.Sprintf("calls=%d ", want)):
 			out.Line("FAIL", "rotation-ca-calls", wire.Enc(join(t)), wire.Enc(r))
 		default:
